@@ -87,6 +87,9 @@ def build_feed(rng, n_lines, malformed, limit_parsing=False):
     bad = MALFORMED[malformed]
     if bad is None:
         bad = soup(rng)
+    if n_lines <= 3 and bad and max(len(b) for b in bad) > 1500:
+        # a pause behind every byte: only the shortest of the long lines
+        bad = sorted(bad, key=len)[:2]
     n_bad = 0
     for k in range(n_lines):
         roll = rng.random()
@@ -346,7 +349,7 @@ def check_1090(col, binpath, rng, tag, seg_kind, delay_kind, malformed, scratch,
         s.close()
 
 
-def parse_when_stable(sess, sentinel_msgs=1, cap=60.0):
+def parse_when_stable(sess, sentinel_msgs=1, cap=60.0, quiet_cap=6.0):
     """Switch to the Airplanes tab; wait until the sentinel aircraft of the feed shows the expected
     message count (everything before it has then been processed) and the table stopped changing.
     If the sentinel never shows up the table is taken as it is after `cap` seconds or 6 s of
@@ -367,7 +370,7 @@ def parse_when_stable(sess, sentinel_msgs=1, cap=60.0):
             continue
         quiet = time.monotonic() - stable_since
         seen = rows is not None and any(r["icao"] == "%06x" % SENTINEL and r["msgs"] == str(sentinel_msgs) for r in rows)
-        if (seen and quiet > 0.5) or quiet > 6.0:
+        if (seen and quiet > 0.5) or quiet > quiet_cap:
             return rows
     return sess.airplanes_rows()
 
@@ -471,7 +474,9 @@ def check_radar(col, binpath, rng, tag, seg_kind, delay_kind, malformed, disconn
         # feed: radar reads 1 KiB per turn of its loop) is a history of its own: the first-connection
         # snapshot cannot be taken (the reconnect follows the last line at once), the comparison after
         # the reconnect covers both connections.
-        backlog = retrying and sum(len(d) for _, d, *_ in lines) > 100000
+        # (only for an orderly close: an abortive one discards what the client has not read yet,
+        # so there the drop waits for the snapshot however long the client needs)
+        backlog = retrying and disconnect != "retry_reset" and sum(len(d) for _, d, *_ in lines) > 100000
         if backlog:
             sess.srv.release("first_checked")
             col.count("disconnects_with_backlog")
@@ -479,7 +484,10 @@ def check_radar(col, binpath, rng, tag, seg_kind, delay_kind, malformed, disconn
             ok = True
             sess.key("F3")
         else:
-            rows = parse_when_stable(sess)
+            # (radar works through about 100 KB per second: a run of over-long lines keeps the table
+            # unchanged for a while)
+            size = sum(len(d) for _, d, *_ in lines)
+            rows = parse_when_stable(sess, cap=60.0 + size / 40000.0, quiet_cap=6.0 + size / 40000.0)
             sess.srv.release("first_checked")
             if rows is None:
                 if not sess.p.alive():
@@ -510,7 +518,8 @@ def check_radar(col, binpath, rng, tag, seg_kind, delay_kind, malformed, disconn
                 raise Inconclusive("second connection not observed")
             for _, d, a, _ in lines2:
                 expect[a]["msgs"] += 1
-            rows = parse_when_stable(sess, sentinel_msgs=expect[SENTINEL]["msgs"])
+            size = sum(len(d) for _, d, *_ in lines) if backlog else 0
+            rows = parse_when_stable(sess, sentinel_msgs=expect[SENTINEL]["msgs"], cap=60.0 + size / 40000.0, quiet_cap=6.0 + size / 40000.0)
             if rows is None:
                 raise Inconclusive("Airplanes table not found after reconnect")
             compare_rows(col, rows, expect, cls + ("" if disconnect == "retry" else f"|disc={disconnect}"), dict(inp, lines2=[d.decode() for _, d, *_ in lines2]), "after_reconnect_tracked_aircraft_kept")
